@@ -154,6 +154,10 @@ def gen_headers(rng):
         out.append((rng.choice([b"Content-Length", b"content-length"]), rng.choice([b"0", b"1", b"10", b"48", b"99999", b"abc", b"", b"-1"])))
     for _ in range(n):
         k = rng.choice(names)
+        if rng.random() < 0.1:
+            # a key is whatever stands in front of the first ": " - also when it begins with a blank or a tab (no line folding),
+            # holds a colon, or is empty
+            k = rng.choice([b" X-Pad", b"\tX-Tab", b"  ", b"A:B", b":authority", b"", b" "])
         r = rng.random()
         if r < 0.15:
             v = b""
@@ -237,9 +241,13 @@ def gen_response(rng):
 
 
 def gen_malformed(rng):
-    what = rng.choice(["empty", "ws", "1part", "2parts", "4parts", "status-2parts", "status-4parts", "status-nonnum", "status-nonascii"])
+    what = rng.choice(["empty", "ws", "1part", "2parts", "4parts", "status-2parts", "status-4parts", "status-nonnum", "status-nonascii", "empty-then-valid"])
     tail = b"\r\nHost: x\r\n\r\nbody" if rng.random() < 0.7 else rng.choice([b"", b"\r\n\r\n"])
-    if what == "empty":
+    if what == "empty-then-valid":
+        # the FIRST line decides: an empty first line followed by a perfectly good start line is still malformed
+        line = b""
+        tail = b"\r\n" + rng.choice([b"GET /ptj HTTP/1.1", b"HTTP/1.1 200 OK", b"POST /submit.php?id=1 HTTP/1.1"]) + b"\r\nHost: a\r\n\r\n" + rng.choice([b"", b"body"])
+    elif what == "empty":
         line = b""
     elif what == "ws":
         line = rng.choice([b" ", b"   ", b"\t", b" \t "])
